@@ -24,6 +24,11 @@ Record site := mkSite {
   s_src : string          (* exact source text of the four arguments *)
 }.
 
+(* a pruning expression of the source: `~equivalent(data, fill)` (the NaN-aware token equality of
+   _utils.equivalent) or anything else (kept as text; a plain `!=` / `==` comparison is "else") *)
+Inductive prune_shape := PNotEquivalent (data fill : string) | POther (text : string).
+Record prune_site := mkPrune { p_file : string; p_func : string; p_var : string; p_shape : prune_shape; p_src : string }.
+
 Definition flagv_eqb (a b : flagv) : bool :=
   match a, b with
   | FTrue, FTrue | FFalse, FFalse | FDefault, FDefault => true
@@ -243,7 +248,44 @@ Definition site_justification : list jentry := [
     (JustifiedBy "C08.broadcast_to_den" "result canonical for every target NumPy accepts; the sorted= rule (non-broadcast axes adjacent) is sound: C08.broadcast_to_sorted_rule_sound")
 ].
 
+(* what every pruning expression of the source must be: (file, function, variable, data, fill) of a
+   `variable = ~equivalent(data, fill)` *)
+Definition prune_expected : list (string * string * string * string * string) := [
+  ("_coo/core.py", "COO._prune", "mask", "self.data", "self.fill_value");
+  ("_coo/core.py", "COO.from_numpy", "coords", "x", "fill_value");
+  ("_compressed/compressed.py", "GCXS._reduce_return", "mask", "data", "result_fill_value");
+  ("_compressed/compressed.py", "GCXS._prune", "mask", "self.data", "self.fill_value");
+  ("_umath.py", "_Elemwise._get_func_coords_data", "unmatched_mask", "func_data", "self.fill_value")
+].
+
+Definition prune_key (p : prune_site) : string * string * string * string * string :=
+  match p_shape p with
+  | PNotEquivalent d f => (p_file p, p_func p, p_var p, d, f)
+  | POther t => (p_file p, p_func p, p_var p, "<not ~equivalent(...)>", t)
+  end.
+
+Definition str5_eqb (a b : string * string * string * string * string) : bool :=
+  let '(a1, a2, a3, a4, a5) := a in let '(b1, b2, b3, b4, b5) := b in
+  String.eqb a1 b1 && String.eqb a2 b2 && String.eqb a3 b3 && String.eqb a4 b4 && String.eqb a5 b5.
+
+Fixpoint list_eqb5 (l1 l2 : list (string * string * string * string * string)) : bool :=
+  match l1, l2 with
+  | [], [] => true
+  | a :: r1, b :: r2 => str5_eqb a b && list_eqb5 r1 r2
+  | _, _ => false
+  end.
+
+(* COO._reduce_return prunes through the constructor (prune=True) *)
+Definition coo_reduce_return_prunes (sites : list site) : bool :=
+  existsb (fun s => String.eqb (s_func s) "COO._reduce_return" && flagv_eqb (s_prune s) FTrue) sites.
+
 Close Scope string_scope.
+
+(* pruning a data list by a mask `keep v` *)
+Definition prune_by {V} (keep : V -> bool) (data : list V) : list V := filter keep data.
+
+(* IEEE `!=` on value tokens, with `nan` the token of NaN: NaN != anything, itself included *)
+Definition ieee_neq (nan : Z) (a b : Z) : bool := (a =? nan) || (b =? nan) || negb (a =? b).
 
 (* ------------------------------------------------------------------ the constructor *)
 
